@@ -269,8 +269,11 @@ Allowed(pre, m, ev, kinds, g) ==
     /\ IF "rw" \in kinds THEN p = m.owner \/ InSeq(p, GrantOf(g, m.data)) ELSE p = m.owner
 \* an accepted permission update takes effect exactly as signed
 C09_PermissionApplied(x) ==
-    (Kind(x) = "Permission" /\ Ok(x)) =>
-        HasMeta(x.post, x.ev.data) /\ MetaOf(x.post, x.ev.data).rw = x.ev.rw /\ MetaOf(x.post, x.ev.data).ro = x.ev.ro
+    /\ (Kind(x) = "Permission" /\ Ok(x)) =>
+          HasMeta(x.post, x.ev.data) /\ MetaOf(x.post, x.ev.data).rw = x.ev.rw /\ MetaOf(x.post, x.ev.data).ro = x.ev.ro
+    \* ... and a model is born with no access right its owner did not sign for in the creating request
+    /\ \A i \in 1..Len(x.post.metas) : LET m == x.post.metas[i] IN
+          ~HasMeta(x.pre, m.data) => (Kind(x) = "Store" => Rng(m.rw) \subseteq Rng(x.ev.rw) /\ Rng(m.ro) \subseteq Rng(x.ev.ro))
 MetaChanged(x, d) ==
     \/ HasMeta(x.pre, d) # HasMeta(x.post, d)
     \/ (HasMeta(x.pre, d) /\ MetaOf(x.pre, d) # MetaOf(x.post, d))
